@@ -11,7 +11,7 @@ import os
 
 UNIT = "n7_inplace"
 TEST_FILTER = "verif_n7_"
-TIMEOUT = 3600
+TIMEOUT = 900   # normal: 90 s quick / 170 s thorough; a hang of the interpreter on a halting program is reported as a failure
 RELEASE = True
 TRUSTED = ["canonical Brainfuck semantics as written in the test (the same definition unit u7_inplace proves against)",
            "BOUNDED: all balanced programs of <= 5 commands; long-run family; two input streams; u8, u16, u64; budgets 0, 1, 3, 10, 100; output refused at byte 0 / 1 / 2"]
